@@ -30,6 +30,25 @@ def gen(tier):
         scs.append(progs.scenario(len(scs) + 1, steps, exec_=ex, parallelism=rng.choice([0, 1, 2, 8]),
                                   machprocs=rng.choice([1, 2, 4]) if ex == 'bigmachine' else 0,
                                   machcomb=ex == 'bigmachine' and rng.random() < 0.4))
+    # dedicated: keyed operators over inputs with many distinct, interleaving keys and more than 128 rows per shard
+    # (merge buffers of the cogroup / reduce readers are refilled in mid-merge)
+    for k in range(6 if tier == 'quick' else 60):
+        g = progs.Gen(rng)
+        ins = []
+        for j in range(rng.choice([2, 2, 3])):
+            n = rng.choice([140, 200, 300])
+            rws = [[rng.randrange(0, 330), rng.randrange(0, 9)] for _ in range(n)]
+            if rng.random() < 0.5:
+                rws.sort()
+            ins.append(g.add(progs.N('const', nshard=rng.choice([1, 1, 2]), rows=rws), 'eo', 1))
+        op = ['cogroup', 'cogroup', 'reduce', 'fold'][k % 4]
+        if op == 'cogroup':
+            i = g.add(progs.N('cogroup', **{'in': ins}), 'bag', max(g.nodes[j]['nshard'] for j in ins))
+        else:
+            i = g.add(progs.N(op, **{'in': [ins[0]]}, f='sum'), 'bag', g.nodes[ins[0]]['nshard'])
+        prog = {'nodes': g.nodes, 'out': i, 'taps': [i]}
+        scs.append(progs.scenario(len(scs) + 1, [progs.step_run('r', prog), progs.step_scan('r')],
+                                  exec_=rng.choice(['local', 'bigmachine']), machprocs=2))
     # dedicated: Scan operator as sink
     for _ in range(12 if tier == 'quick' else 100):
         g = progs.Gen(rng)
@@ -79,10 +98,19 @@ def run(tier, replay=None):
         recs, path = progs.execute(w, scs, workers=8)
         v = progs.judge(chk, w, path, len(recs))
         chk.cov['traces_validated_against_impl'] = len(recs)
+        # the same programs again with 4-row internal vectors (defaultsize.Chunk=4 (a power of two, as the combiner tables require), SpillBatchSize=2, sort canary 2):
+        # every vector boundary becomes reachable with tiny inputs
+        small = [s for s in scs if not any(len(n.get('rows', [])) > 50 or any(len(x) > 50 for x in n.get('shards', []))
+                                           for st in s['steps'] if st.get('prog') for n in st['prog']['nodes'])]
+        recs2, path2 = progs.execute(w, small, workers=8, tag='chunk3', env={'VERIF_CHUNK': 4, 'VERIF_SPILLBATCH': 2, 'VERIF_CANARY': 2})
+        v2 = progs.judge(chk, w, path2, len(recs2), name='progmon_chunk3')
+        chk.cov['traces_validated_against_impl'] += len(recs2)
+        chk.cov['small_vector_runs'] = len(recs2)
         for s in scs:
             chk.case({'steps': s['steps'], 'exec': s['exec']}, nontrivial=any(len(st.get('prog', {}).get('nodes', [])) > 1 for st in s['steps']))
         chk.cov['rule'] = 'random well-formed operator DAGs from VERIF_SEED (0-4 operators over 1-3 sources, 1-3 shards, keys in 0..3; plus programs with 127..300 rows), each on a random executor configuration; distinct by (program, executor); non-trivial = more than one node'
         chk.sample({'scenario': scs[0]})
         chk.sample({'record_events': recs[0]['events'][:2]})
         report(chk, scs, recs, v)
+        report(chk, small, recs2, v2)
         return chk.finish()
